@@ -9,7 +9,7 @@ from hypothesis import strategies as st
 from .. import refbucket, runner, stats, sut
 
 ID = "C16"
-RULE = ("deterministic_choice(id, population, weights / cum_weights) with ids = text or None, populations = lists/tuples "
+RULE = ("deterministic_choice(id, population, weights / cum_weights) with ids = text (incl. the empty string and ids whose hash position is 0 or 2^32-1) or None, populations = lists/tuples "
         "of identity-tagged mixed values (length 1-64), weight vectors of non-negative ints/floats with zeros (never all "
         "zero), their accumulated form, and the malformed combinations (both kinds, wrong length +-1, zero / negative / "
         "nan / inf total). Oracles: result `is` an element; deep copies of the arguments unchanged; weights == "
@@ -26,6 +26,10 @@ ASSUMPTIONS = [
     "with an id, a zero-weight item is never returned; with id=None zero-weight items are never drawn (random.choices)",
 ]
 SHARDS = {"quick": 1, "thorough": 16}
+
+
+# ids whose hash position is 0 (first two) and 2^32-1 (last): verifiable in a microsecond, found once by brute force
+EXTREME_IDS = ["unit-3373044025", "unit-5155129577", "unit-7940567911"]
 
 
 class Tag:
@@ -59,7 +63,8 @@ def good(draw):
     ws = [draw(_w) for _ in range(n)]
     if sum(ws) <= 0:
         ws[draw(st.integers(0, n - 1))] = draw(st.sampled_from([1, 0.5, 7]))
-    return {"kind": "good", "id": draw(st.one_of(st.text(alphabet=st.characters(exclude_categories=["Cs"]), max_size=20), st.none())),
+    return {"kind": "good", "id": draw(st.one_of(st.text(alphabet=st.characters(exclude_categories=["Cs"]), max_size=20), st.none(),
+                                             st.sampled_from(EXTREME_IDS + ["", "0", " "]))),
             "pop": [draw(_vals) for _ in range(n)], "tuple": draw(st.booleans()), "ws": ws,
             "c": draw(st.integers(1, max(1, (2 ** 20 - 1) // n))), "seed": draw(st.integers(0, 2 ** 32))}
 
@@ -123,6 +128,18 @@ def judge(case):
                 if not _is_elem(u, pop) or u is not e:
                     viol.append("no weights gave #%s, equal integer weights %d gave #%s (n=%d, id=%r)"
                                 % (getattr(u, "i", u), c, getattr(e, "i", e), n, uid))
+                # a caller may keep ONE weights list and edit it in place between calls: the answer must follow the edit
+                if n >= 2:
+                    buf = list(ws)
+                    dc(uid, pop, buf)
+                    other = ws[1:] + ws[:1]
+                    if sum(other) > 0:
+                        buf[:] = other
+                        r_inplace = dc(uid, pop, buf)
+                        r_fresh = dc(uid, pop, list(other))
+                        if r_inplace is not r_fresh:
+                            viol.append("a weights list edited in place between two calls (%r -> %r) gave #%s, a fresh list gives #%s"
+                                        % (ws, other, getattr(r_inplace, "i", r_inplace), getattr(r_fresh, "i", r_fresh)))
                 # agreement with the documented uniform rule floor(u*n)
                 k = refbucket.string_position(uid)
                 if _is_elem(u, pop) and u.i != (k * n) // refbucket.GRID:
